@@ -133,7 +133,10 @@ func (c18) Gen(r *Rng, tier string, emit func(string, Tok)) {
 		if len(data) > 188*6 && tier != "thorough" {
 			data = data[:188*6]
 		}
-		for off := 0; off <= len(data); off += scale(tier, 9, 1) {
+		if len(data) > 188*12 {
+			data = data[:188*12]
+		}
+		for off := 0; off <= len(data); off += scale(tier, 9, 2) {
 			for kind := 0; kind < 3; kind++ {
 				cause := int64(1 + r.Intn(2))
 				opt := []int{188, 0}[r.Intn(2)]
